@@ -7,10 +7,14 @@ From TS Require Proofs.C10Lex Proofs.C10_TS Proofs.C10_TSFile Proofs.C10_KT Proo
                 Proofs.C10_SW Proofs.C10_SWFile Proofs.C10_PY Proofs.C10_PYFile Proofs.C10_KW Proofs.C10.
 From TS Require Import Spec.C10TsGrammar.
 From TS Require Proofs.C10_TSGrammarTok Proofs.C10_TSGrammarParse Proofs.C10_TSGrammar Proofs.C10_TSGrammarFile.
+From TS Require Import Spec.C10KtGrammar.
+From TS Require Proofs.C10_KTGrammarTok Proofs.C10_KTGrammarParse Proofs.C10_KTGrammar Proofs.C10_KTGrammarFile Proofs.C10_KTGrammarMulti.
 From TS Require Import Model.MultiFile Spec.C10MultiSpec.
 From TS Require Model.Writer Proofs.C10Multi Proofs.C10MultiWitness.
 From TS Require Import Spec.C10GoGrammar.
 From TS Require Proofs.C10_GOGrammarTok Proofs.C10_GOGrammarSemi Proofs.C10_GOGrammarParse Proofs.C10_GOGrammar Proofs.C10_GOGrammarFile.
+From TS Require Import Spec.C10SwGrammar.
+From TS Require Proofs.C10_SWGrammarTok Proofs.C10_SWGrammarParse Proofs.C10_SWGrammarDecl Proofs.C10_SWGrammar Proofs.C10_SWGrammarFile.
 From TS Require Props.C10.
 
 Goal forall (cfg : c10_lexcfg) (t : str), c10_balanced cfg t = true ->
@@ -307,3 +311,156 @@ Goal exists cfg pd text, dom_C10 CGO pd = true /\ known_C10 CGO [] pd = [] /\ kn
     go_generate uc_exec cfg pd = Ok text /\ contains_sub (lit "type switch struct{") text = true /\ c10_go_recognise text = None.
 Proof. exact Props.C10.C10_go_keyword_name_refuted. Qed.
 Print Assumptions Props.C10.C10_go_keyword_name_refuted.
+Goal forall (a : str) (ta : list c10_tok) (b : str) (tb : list c10_tok),
+    c10k_tokens (S (List.length a)) a = Some ta -> c10k_tokens (S (List.length b)) b = Some tb ->
+    Proofs.C10_KTGrammarTok.glue a b = true ->
+    c10k_tokens (S (List.length (a ++ b))) (a ++ b) = Some (ta ++ tb).
+Proof. exact Props.C10.C10_kt_tokens_frame. Qed.
+Print Assumptions Props.C10.C10_kt_tokens_frame.
+Goal forall (t rest : list c10_tok),
+    Proofs.C10_KTGrammarParse.Gr Proofs.C10_KTGrammarParse.STy t -> Proofs.C10_KTGrammarParse.fol rest ->
+    c10k_type (t ++ rest) = Some rest.
+Proof. exact Props.C10.C10_kt_type_grammar_complete. Qed.
+Print Assumptions Props.C10.C10_kt_type_grammar_complete.
+Goal forall (ms : list Proofs.C10_KTGrammarParse.kmod) (name : str) (gs : list str)
+         (ctor : option (list (list c10_tok))) (d : option (list c10_tok * list c10_tok)) (b : Proofs.C10_KTGrammarParse.kbody2),
+    Forall (Proofs.C10_KTGrammarParse.mod_wf c10k_is_mod) ms ->
+    match ctor with Some ps => Forall Proofs.C10_KTGrammarParse.ParamToks ps | None => True end ->
+    match d with
+    | Some (u, l) => Proofs.C10_KTGrammarParse.Gr Proofs.C10_KTGrammarParse.SUser u /\ Forall Proofs.C10_KTGrammarParse.expr_tok l
+    | None => True
+    end ->
+    match b with
+    | Proofs.C10_KTGrammarParse.B2None => True
+    | Proofs.C10_KTGrammarParse.B2Entries es =>
+      Proofs.C10_KTGrammarParse.mods_enum ms = true /\ Forall Proofs.C10_KTGrammarParse.EntryToks es
+    | Proofs.C10_KTGrammarParse.B2Members mts =>
+      Proofs.C10_KTGrammarParse.mods_enum ms = false /\ Forall Proofs.C10_KTGrammarParse.DeclToks mts
+    end ->
+    Proofs.C10_KTGrammarParse.DeclToks
+      (Proofs.C10_KTGrammarParse.mods_toks ms ++ Proofs.C10_KTGrammarParse.kw "class" :: KIdent name ::
+       Proofs.C10_KTGrammarParse.gens_toks gs ++ Proofs.C10_KTGrammarParse.octor_toks ctor ++
+       Proofs.C10_KTGrammarParse.odeleg_toks d ++ Proofs.C10_KTGrammarParse.body_toks (Proofs.C10_KTGrammarParse.body2 b)).
+Proof. exact Props.C10.C10_kt_class_grammar_complete. Qed.
+Print Assumptions Props.C10.C10_kt_class_grammar_complete.
+Goal forall ds : list kt_decl, Forall Proofs.C10_KTGrammar.c10_ktg_decl_ok ds ->
+    c10_kt_recognise (List.concat (map kt_render_decl ds)) = Some (List.length ds).
+Proof. exact Props.C10.C10_kt_layout_grammar. Qed.
+Print Assumptions Props.C10.C10_kt_layout_grammar.
+Goal forall (uc : unicode) (cfg : kt_config) (pd : parsed) (text : str),
+    Proofs.C10_KT.c10_kt_cfg_ok cfg = true -> Proofs.C10_KTGrammarFile.c10_ktg_cfg_ok cfg ->
+    dom_C10 CKT pd = true -> Proofs.C10_KTGrammarFile.c10_ktg_dom pd ->
+    kt_generate uc cfg pd = Ok text ->
+    exists n : nat, c10_kt_recognise text = Some n /\ (List.length (items_of pd) <= n)%nat.
+Proof. exact Props.C10.C10_grammar_kotlin. Qed.
+Print Assumptions Props.C10.C10_grammar_kotlin.
+Goal forall (uc : unicode) (cfg : kt_config) (pd : parsed) (text : str),
+    Proofs.C10_KT.c10_kt_cfg_ok cfg = true -> Proofs.C10_KTGrammarFile.c10_ktg_cfg_simple cfg = true ->
+    dom_C10 CKT pd = true -> Proofs.C10_KTGrammarFile.c10_ktg_dom_simple pd = true ->
+    kt_generate uc cfg pd = Ok text ->
+    exists n : nat, c10_kt_recognise text = Some n /\ (List.length (items_of pd) <= n)%nat.
+Proof. exact Props.C10.C10_grammar_kotlin_simple. Qed.
+Print Assumptions Props.C10.C10_grammar_kotlin_simple.
+Goal Proofs.C10_KT.c10_kt_cfg_ok Proofs.C10_KTGrammarFile.kg_cfg = true /\ Proofs.C10_KTGrammarFile.c10_ktg_cfg_ok Proofs.C10_KTGrammarFile.kg_cfg /\
+  dom_C10 CKT Proofs.C10_KTGrammarFile.kg_prog = true /\ Proofs.C10_KTGrammarFile.c10_ktg_dom Proofs.C10_KTGrammarFile.kg_prog /\
+  known_C10 CKT [] Proofs.C10_KTGrammarFile.kg_prog = [] /\
+  kt_generate uc_exec Proofs.C10_KTGrammarFile.kg_cfg Proofs.C10_KTGrammarFile.kg_prog = Ok Proofs.C10_KTGrammarFile.kg_text /\
+  c10_kt_recognise Proofs.C10_KTGrammarFile.kg_text = Some 7%nat /\
+  contains_sub (lit "data class OPPerson<T, U> (") Proofs.C10_KTGrammarFile.kg_text = true /\
+  contains_sub (lit "val first_name: String?? = null,") Proofs.C10_KTGrammarFile.kg_text = true /\
+  contains_sub (lit "typealias OPAl<T> = List<T>?") Proofs.C10_KTGrammarFile.kg_text = true /\
+  contains_sub (lit "enum class OPColor(val string: String) {") Proofs.C10_KTGrammarFile.kg_text = true /\
+  contains_sub (lit "data class S<T>(val content: OPESInner<T>): OPE<T>()") Proofs.C10_KTGrammarFile.kg_text = true /\
+  c10_kt_recognise (firstn (List.length Proofs.C10_KTGrammarFile.kg_text - 3) Proofs.C10_KTGrammarFile.kg_text) = None /\
+  c10_kt_recognise (Proofs.C10_KTGrammarFile.kg_drop_first 40 Proofs.C10_KTGrammarFile.kg_text) = None /\
+  c10_kt_recognise (Proofs.C10_KTGrammarFile.kg_subst_first 61 58 Proofs.C10_KTGrammarFile.kg_text) = None /\
+  c10_kt_recognise (Proofs.C10_KTGrammarFile.kg_drop_first 44 Proofs.C10_KTGrammarFile.kg_text) = None /\
+  c10_kt_recognise (lit "@Serializable" ++ nl ++ lit "object Tag" ++ nl) = Some 1%nat /\
+  c10_kt_recognise (lit "@Serializable" ++ nl ++ lit "object Tag<T>" ++ nl) = None /\
+  c10_kt_recognise (lit "@Serializable" ++ nl ++ lit "object Tag(val x: Int)" ++ nl) = None /\
+  c10_kt_recognise (lit "typealias A<> = Int" ++ nl) = None /\
+  c10_kt_recognise (lit "typealias A Int" ++ nl) = None /\
+  c10_kt_recognise (lit "@Serializable" ++ nl ++ lit "data class A(val x)" ++ nl) = None /\
+  c10_kt_recognise (lit "@Serializable" ++ nl ++ lit "data class (val x: Int)" ++ nl) = None /\
+  c10_kt_recognise (lit "@SerialName(""a) object A" ++ nl) = None.
+Proof. exact Props.C10.C10_grammar_kotlin_witness. Qed.
+Print Assumptions Props.C10.C10_grammar_kotlin_witness.
+Goal forall (uc : unicode) (cfg : kt_config) (c : str) (im : scoped) (pd : parsed) (text : str),
+    Proofs.C10_KT.c10_kt_cfg_ok cfg = true -> Proofs.C10_KTGrammarFile.c10_ktg_cfg_ok cfg -> kt_package cfg <> [] ->
+    dom_C10 CKT pd = true -> Proofs.C10_KTGrammarFile.c10_ktg_dom pd ->
+    Proofs.C10_KTGrammarTok.c10k_ident_ok c = true -> Proofs.C10_KTGrammarMulti.c10_ktg_imports_ok im ->
+    kt_generate_multi uc cfg c im pd = Ok text ->
+    exists n : nat, c10_kt_recognise text = Some n /\ (List.length (items_of pd) <= n)%nat.
+Proof. exact Props.C10.C10_grammar_kotlin_multi. Qed.
+Print Assumptions Props.C10.C10_grammar_kotlin_multi.
+Goal Proofs.C10_KTGrammarTok.c10k_ident_ok (lit "app_core") = true /\
+  Proofs.C10_KTGrammarMulti.c10_ktg_imports_ok Proofs.C10_KTGrammarMulti.kgm_imports /\
+  kt_package Proofs.C10_KTGrammarFile.kg_cfg <> [] /\
+  kt_generate_multi uc_exec Proofs.C10_KTGrammarFile.kg_cfg (lit "app_core") Proofs.C10_KTGrammarMulti.kgm_imports Proofs.C10_KTGrammarFile.kg_prog
+    = Ok Proofs.C10_KTGrammarMulti.kgm_text /\
+  c10_kt_recognise Proofs.C10_KTGrammarMulti.kgm_text = Some 7%nat /\
+  contains_sub (lit "package com.agilebits.onepassword.app_core") Proofs.C10_KTGrammarMulti.kgm_text = true /\
+  contains_sub (lit "import com.agilebits.onepassword.lib_crate.OPNode") Proofs.C10_KTGrammarMulti.kgm_text = true /\
+  c10_kt_recognise (lit "package com.p.3d_tools" ++ nl) = None /\
+  c10_kt_recognise (lit "package com.p.lib" ++ nl ++ lit "import com.p.lib-crate.Item" ++ nl) = None.
+Proof. exact Props.C10.C10_grammar_kotlin_multi_witness. Qed.
+Print Assumptions Props.C10.C10_grammar_kotlin_multi_witness.
+Goal forall (a : str) (ta : list c10_wtok) (b : str) (tb : list c10_wtok),
+    c10_sw_tokens (S (List.length a)) a = Some ta -> c10_sw_tokens (S (List.length b)) b = Some tb ->
+    Proofs.C10_SWGrammarTok.glue a b = true -> Proofs.C10_SWGrammarTok.lcok a b = true ->
+    c10_sw_tokens (S (List.length (a ++ b))) (a ++ b) = Some (ta ++ tb).
+Proof. exact Props.C10.C10_sw_tokens_frame. Qed.
+Print Assumptions Props.C10.C10_sw_tokens_frame.
+Goal forall (t rest : list c10_wtok),
+    Proofs.C10_SWGrammarParse.WGr Proofs.C10_SWGrammarParse.STy t -> Proofs.C10_SWGrammarParse.fol rest ->
+    c10_sw_type (t ++ rest) = Some rest.
+Proof. exact Props.C10.C10_sw_type_grammar_complete. Qed.
+Print Assumptions Props.C10.C10_sw_type_grammar_complete.
+Goal forall (P : c10_sw_ctx -> Prop) (b : list c10_wtok), Proofs.C10_SWGrammarDecl.Body P b ->
+  forall ctx, P ctx -> forall rest f, (2 * List.length b + 2 <= f)%nat -> c10_sw_d f (WMembers ctx) (b ++ rest) = Some rest.
+Proof. exact Props.C10.C10_sw_body_grammar_complete. Qed.
+Print Assumptions Props.C10.C10_sw_body_grammar_complete.
+Goal forall (n : nat) (ts : list c10_wtok), Proofs.C10_SWGrammarDecl.FileToks n ts ->
+  forall f, (List.length ts < f)%nat -> c10_sw_decls f ts = Some n.
+Proof. exact Props.C10.C10_sw_file_grammar_complete. Qed.
+Print Assumptions Props.C10.C10_sw_file_grammar_complete.
+Goal forall (nv : bool) (version : str) (ds : list sw_decl),
+    c10_dotted_ok version = true -> Forall Proofs.C10_SWGrammar.c10_swg_decl_ok ds ->
+    c10_sw_recognise (Proofs.C10_SWGrammarFile.sw_header nv version ++ List.concat (map sw_render_decl ds)) = Some (S (List.length ds)).
+Proof. exact Props.C10.C10_swift_layout_grammar_partial. Qed.
+Print Assumptions Props.C10.C10_swift_layout_grammar_partial.
+Goal Proofs.C10_SWFile.c10_sw_cfg_ok Proofs.C10_SWGrammarFile.w_cfg = true /\ dom_C10 CSW Proofs.C10_SWGrammarFile.w_prog = true /\
+  known_C10 CSW [] Proofs.C10_SWGrammarFile.w_prog = [] /\
+  sw_generate uc_exec Proofs.C10_SWGrammarFile.w_cfg Proofs.C10_SWGrammarFile.w_prog = Ok Proofs.C10_SWGrammarFile.w_text /\
+  c10_sw_recognise Proofs.C10_SWGrammarFile.w_text = Some 7%nat /\
+  contains_sub (lit "public struct OPPerson<T: Codable & Equatable & Hashable & Sendable, U: Codable & Sendable>: Codable, Sendable, Equatable {") Proofs.C10_SWGrammarFile.w_text = true /\
+  contains_sub (lit "public let `class`: Unicode.Scalar") Proofs.C10_SWGrammarFile.w_text = true /\
+  contains_sub (lit "public let index: [String: OPBox<U, [Bool]>]") Proofs.C10_SWGrammarFile.w_text = true /\
+  contains_sub (lit "public typealias OPAl<T> = [T]?") Proofs.C10_SWGrammarFile.w_text = true /\
+  contains_sub (lit "case `default` = ""Default""") Proofs.C10_SWGrammarFile.w_text = true /\
+  contains_sub (lit "public indirect enum OPE<T: Codable & Sendable>: Codable, Sendable {") Proofs.C10_SWGrammarFile.w_text = true /\
+  contains_sub (lit "public init(from decoder: Decoder) throws {") Proofs.C10_SWGrammarFile.w_text = true /\
+  contains_sub (lit "public struct CodableVoid: Codable, Sendable, Equatable {}") Proofs.C10_SWGrammarFile.w_text = true /\
+  c10_sw_recognise (firstn (List.length Proofs.C10_SWGrammarFile.w_text - 3) Proofs.C10_SWGrammarFile.w_text) = None /\
+  c10_sw_recognise (Proofs.C10_TSGrammarFile.g_drop_first 123 Proofs.C10_SWGrammarFile.w_text) = None /\
+  c10_sw_recognise (Proofs.C10_TSGrammarFile.g_subst_first 61 58 Proofs.C10_SWGrammarFile.w_text) = None /\
+  c10_sw_recognise (Proofs.C10_TSGrammarFile.g_drop_first 96 Proofs.C10_SWGrammarFile.w_text) = None /\
+  c10_sw_recognise Proofs.C10_SWGrammarFile.w_two_members_two_lines = Some 1%nat /\
+  c10_sw_recognise Proofs.C10_SWGrammarFile.w_two_members_one_line = None /\
+  c10_sw_recognise Proofs.C10_SWGrammarFile.w_struct_without_name = None /\
+  c10_sw_recognise Proofs.C10_SWGrammarFile.w_empty_generics = None /\
+  c10_sw_recognise Proofs.C10_SWGrammarFile.w_member_without_type = None /\
+  c10_sw_recognise Proofs.C10_SWGrammarFile.w_raw_and_payload = None /\
+  c10_sw_recognise Proofs.C10_SWGrammarFile.w_label_class = Some 1%nat /\
+  c10_sw_recognise Proofs.C10_SWGrammarFile.w_label_let = None /\
+  c10_dotted_ok (sw_version Proofs.C10_SWGrammarFile.w_cfg) = true /\
+  Forall Proofs.C10_SWGrammar.c10_swg_decl_ok
+    [Proofs.C10_SWGrammarFile.w_alias_decl; Proofs.C10_SWGrammarFile.w_unit_decl; SWCodableVoid [lit "Codable"; lit "Equatable"]].
+Proof. exact Props.C10.C10_grammar_swift_witness. Qed.
+Print Assumptions Props.C10.C10_grammar_swift_witness.
+Goal exists text, dom_C10 CSW Proofs.C10_SWGrammarFile.w_label_prog = true /\
+    known_C10 CSW [] Proofs.C10_SWGrammarFile.w_label_prog = ["C10-swift-label"%string] /\
+    sw_generate uc_exec Proofs.C10_SWGrammarFile.w_cfg Proofs.C10_SWGrammarFile.w_label_prog = Ok text /\
+    contains_sub (lit "public init(let: String)") text = true /\ good_C10_lex CSW text = true /\ c10_sw_recognise text = None.
+Proof. exact Props.C10.C10_swift_label_rejected. Qed.
+Print Assumptions Props.C10.C10_swift_label_rejected.
